@@ -6,6 +6,11 @@ ALL = ["C%02d" % i for i in range(1, 21)]
 
 # id -> (level category, engine, technique, level text, level note, design ref)
 CLAIMED = {
+ "C05": ("exploration", "E3 value-domain enumeration through generated modules",
+         "exhaustive enumeration of restriction chains x candidate values x write paths, each write executed on the real code and compared with a big-number / anchored-regex reference of membership in the effective type",
+         "173 generated modules: for all 8 integer widths and decimal64 every range shape (single value, closed, min/max keywords, alternatives, white space, negative, 64-bit and unsigned extremes) directly and through typedef chains of depth 1-2 that narrow the base; string lengths (incl. multi-byte), single/multiple/inverted/inherited patterns, enumeration names and values, bits, identityref (derived, underived, base, module qualifier), union members with their own restrictions. Candidates are every bound of every level with both neighbours, type extremes and zero (strings of every length 0..6, multi-byte, unknown names). Each is written through 7 paths (Set, SetValue, Upsert/Insert/Update from JSON, Upsert from XML and from a node) into a leaf and into each position of a leaf-list. Accepted iff in the effective type; a rejected write must return an error and leave the store unchanged; no expression may panic.",
+         "trusted: reference membership (parseRange/inAlts with math/big, Go regexp anchored as XSD requires, rune counts); XSD regex features beyond RE2 are outside the alphabet",
+         "DESIGN.md section 7 C05"),
  "C12": ("fault_enumeration", "E4 deviation-bounded fault enumeration over node callbacks",
          "exhaustive enumeration of fault positions: for each edit scenario every single callback position (thorough: every pair) is made to fail on the real editor; begin/end pairing, recipients, error wrapping and absence of later writes checked on every run",
          "27 scenarios (upsert/insert/update x From/Into x root/container/list/entry/nested entry points x new and existing containers, list entries, nested lists, choice switches that clear leaves, containers and lists, Delete of container/entry/list/nested entry, ReplaceFrom) run over recording wrappers on source and target. Run 0 numbers all callbacks; run k fails exactly callback k with a unique sentinel for every k (quick), and every pair k1<k2 among the calls still made after k1 (thorough). Each run checks: stack-disciplined BeginEdit/EndEdit pairing per node instance with equal flags, notifications only on target nodes inside or above an edit root, errors.Is(API error, sentinel), no write/create/delete after the failing call; the event prefix before the fault must equal run 0.",
